@@ -8,6 +8,7 @@ import ast
 import re
 
 from ..model import walk_shallow, call_name, is_self_attr, dotted_name, parent, ancestors, enclosing_function, rename_copy
+from ..util import canon
 from ..util import (has_call, find_calls, assigned_value, const_str, unparse, kw, arg_or_kw, enclosing_stmt,
                     guards_of, call_tail, control_ancestors)
 from .. import mutate as M
@@ -167,7 +168,7 @@ def r2_bisect_scan(ctx, cmpf, arms):
             gen_ok = unparse(s.generators[0].iter) == "enumerate(col, lo)" and unparse(s.elt) == "i"
         else:
             gen_ok = False
-        ctx.ob("C17.R2", RES, "Table._compare", arm, f"'{op}': bisect ranges {want_b} <-> scan `{want_s}`", gotb == want_b and cond == want_s and gen_ok,
+        ctx.ob("C17.R2", RES, "Table._compare", arm, f"'{op}': bisect ranges {want_b} <-> scan `{want_s}`", gotb == want_b and cond == canon(want_s) and gen_ok,
                detail={"bisect": gotb, "scan": cond}, stmt=f"bisect~scan {op}")
     # 'in' and '!in'
     arm = arms.get("in")
@@ -194,7 +195,7 @@ def r2_bisect_scan(ctx, cmpf, arms):
             conj = [unparse(v) for v in (e.test.values if isinstance(e.test, ast.BoolOp) and isinstance(e.test.op, ast.And) else [e.test])]
             # the probe reads an element of the range, so it is sound only on a non-empty range: `l < h` must be tested first
             d["non-empty range tested before the probe"] = conj[:1] in (["l < h"], ["h > l"])
-            ok = params == ["c", "a", "l", "h"] and unparse(e.body) == ret and conj[-1] == f"{probe} == a" and conj[:-1] in (["l < h"], ["h > l"]) \
+            ok = params == ["c", "a", "l", "h"] and unparse(e.body) == ret and conj[-1] == canon(f"{probe} == a") and conj[:-1] in (["l < h"], ["h > l"]) \
                 and unparse(e.orelse) == f"{std}(c, a, l, h)"
         elif len(rets) == 1:
             ok = unparse(rets[0]) == f"{std}(c, a, l, h)"
@@ -342,7 +343,7 @@ def r9_missing_and_copy(ctx):
     for m, val in want.items():
         f = c.methods.get(m)
         rets = [unparse(r.value) for r in walk_shallow(f) if isinstance(r, ast.Return)] if f is not None else []
-        ok = f is not None and len(rets) == 1 and (rets[0] == val if val is not None else rets[0] in ("self == other", "other is None or self is other", "self.__eq__(other)"))
+        ok = f is not None and len(rets) == 1 and (rets[0] == val if val is not None else rets[0] in (canon("self == other"), "other is None or self is other", "self.__eq__(other)"))
         ctx.ob("C17.R9", RES, f"MissingType.{m}", f if f is not None else c.node if hasattr(c, "node") else None, f"MissingType.{m} is defined and orders Missing after every value", ok,
                detail={"returns": rets}, stmt=f"MissingType.{m}", line=getattr(f, "lineno", 1))
     cp = ctx.fn(RES, "Table.copy")
